@@ -37,6 +37,7 @@ def pathJoin (elems : List Str) : Str :=
 
 def deployRoot : Str := ['/', 'd', 'e', 'p', 'l', 'o', 'y']
 def statusRoot : Str := ['/', 's', 't', 'a', 't', 'u', 's']
+def processingRoot : Str := ['/', 'p', 'r', 'o', 'c', 'e', 's', 's', 'i', 'n', 'g']
 
 /-- `filepath.Join(root, appname, entrypoint, nodename, ID)` -/
 def workloadKey (root app entry node id : Str) : Str := pathJoin [root, app, entry, node, id]
@@ -92,6 +93,13 @@ def globAux : Nat → Str → Str → Bool
       else c == a && globAux f p s'
 
 def globMatch (pat s : Str) : Bool := globAux (2 * (pat.length + s.length) + 2) pat s
+
+/-- `utils.LabelsFilter(extend, labels)`: every filter label must be present with the same value -/
+def labelsFilter (extend labels : List (String × String)) : Bool :=
+  labels.all fun (k, v) => extend.lookup k == some v
+
+/-- etcd `WithLimit(limit)` on the (key-ordered) range result; 0 = no limit -/
+def applyLimit {α : Type} (limit : Nat) (l : List α) : List α := if limit = 0 then l else l.take limit
 
 /-- `parts[len(parts)-2]` of `strings.Split(key, "/")` (doGetDeployStatus); a key always has
 at least two parts because it starts with the root -/
